@@ -27,13 +27,15 @@ def me_thms(names):
 PROPS = {
     "C13": {
         "harnesses": ["me"], "lake_targets": ["GcpVerif"],
-        "theorems": [],
+        "theorems": me_thms(["c13_mem_holds", "c13_mem_init", "c13_unavail_excluded_holds", "c13_noavail_holds", "c13_empty_holds", "reach_inv"]),
+        "leanchecker": ["GcpVerif.Proofs.ME"],
         "trusted_base": ME_TB,
         "assumptions": ["0 <= RecoveryTimeout and 0 <= SwitchingDelay (negative durations are covered by the correspondence only)"],
     },
     "C14": {
         "harnesses": ["me"], "lake_targets": ["GcpVerif"],
-        "theorems": [],
+        "theorems": me_thms(["c14_stays_holds", "c14_no_preempt_holds", "c14_no_downgrade_holds", "c14_fire_due_holds", "reach_inv"]),
+        "leanchecker": ["GcpVerif.Proofs.ME"],
         "trusted_base": ME_TB,
         "assumptions": ["0 <= RecoveryTimeout and 0 <= SwitchingDelay (negative durations are covered by the correspondence only)"],
     },
